@@ -41,6 +41,11 @@
 #include <sanitizer/lsan_interface.h>
 #include <sanitizer/asan_interface.h>
 
+#if !defined(__SANITIZE_ADDRESS__) && !defined(C08_HAS_ASAN)
+/* plain build (run under valgrind memcheck): no ASan / LSan run time */
+int __asan_region_is_poisoned(void const volatile *addr, size_t size) { (void) addr; (void) size; return 0; }
+int __lsan_do_recoverable_leak_check(void) { return 0; }
+#endif
 const char *__asan_default_options(void) { return "exitcode=97:leak_check_at_exit=0:allocator_may_return_null=1:malloc_context_size=12:detect_stack_use_after_return=0:max_malloc_fill_size=65536:malloc_fill_byte=190"; }
 const char *__ubsan_default_options(void) { return "print_stacktrace=1"; }
 const char *__lsan_default_options(void) { return "print_suppressions=0"; }
@@ -171,7 +176,7 @@ static int check_inv(ssl_t *s, int rc, int fed)
    callee left there.  The same case run with two paints must give the same observables.  (Heap: ASAN_OPTIONS
    malloc_fill_byte, set by the check.)  In this mode `x` results carry every observable:
    " err=<ssl->err> out=<n>:<fnv of bytes sent + queued> pt=<n>:<fnv of delivered plaintext> sni=<hex> alpn=<hex>" */
-static int g_paint = -1;
+static int g_paint = -1, g_obs = 0;   /* C08_PAINT=<hex>: paint byte; C08_PAINT=none: same observables, the stack left as the previous call left it */
 static uint32_t g_obs_out = 2166136261u, g_obs_pt = 2166136261u; static long g_obs_outn, g_obs_ptn;
 static void obs_mix(uint32_t *h, const unsigned char *b, size_t l) { for (size_t i = 0; i < l; i++) { *h ^= b[i]; *h *= 16777619u; } }
 static __attribute__((noinline)) void poison_stack(int byte)
@@ -384,7 +389,7 @@ static void child_x(int to, const char *flags, char **hex, int nhex)
     for (int i = 0; i < g_nrc; i++) n += snprintf(line + n, sizeof line - n, "%s%d", i ? "," : "", g_rcs[i]);
     snprintf(line + n, sizeof line - n, " hs=%d fl=%s%s in=%d/%d", (int) p->ssl->hsState, (p->ssl->flags & SSL_FLAGS_ERROR) ? "E" : "",
              (p->ssl->flags & SSL_FLAGS_CLOSED) ? "C" : "", (int) p->ssl->inlen, (int) p->ssl->insize);
-    if (g_paint >= 0) {
+    if (g_obs) {
         ssl_t *q = p->ssl; n = (int) strlen(line);
         if (q->outlen > 0 && q->outbuf) { obs_mix(&g_obs_out, q->outbuf, (size_t) q->outlen); g_obs_outn += q->outlen; }
         n += snprintf(line + n, sizeof line - n, " err=%d out=%ld:%08x pt=%ld:%08x alpn=", (int) q->err, g_obs_outn, g_obs_out, g_obs_ptn, g_obs_pt);
@@ -395,7 +400,7 @@ static void child_x(int to, const char *flags, char **hex, int nhex)
         n += snprintf(line + n, sizeof line - n, "off");
 #endif
     }
-    if (strchr(flags, 's') || g_paint >= 0) {
+    if (strchr(flags, 's') || g_obs) {
         n = (int) strlen(line); n += snprintf(line + n, sizeof line - n, " sni=");
         if (!p->ssl->expectedName) n += snprintf(line + n, sizeof line - n, "-");
         else for (int i = 0; i < 64 && p->ssl->expectedName[i]; i++) n += snprintf(line + n, sizeof line - n, "%02x", (unsigned char) p->ssl->expectedName[i]);
@@ -516,7 +521,8 @@ int32 __real_matrixSslDecode(ssl_t *ssl, unsigned char **buf, uint32 *len, uint3
 int32 __wrap_matrixSslDecode(ssl_t *ssl, unsigned char **buf, uint32 *len, uint32 size, uint32 *remaining, uint32 *requiredLen,
                              int32 *error, unsigned char *alertLevel, unsigned char *alertDescription)
 {
-    if (!g_ds_on) return __real_matrixSslDecode(ssl, buf, len, size, remaining, requiredLen, error, alertLevel, alertDescription);
+    if (!g_ds_on) { PAINT();      /* every record starts on a painted stack, also the second record of one receive call */
+        return __real_matrixSslDecode(ssl, buf, len, size, remaining, requiredLen, error, alertLevel, alertDescription); }
     static dscript_t more = { SSL_PARTIAL, 0, 0, 5, 0, 255, 0, 0 };      /* script exhausted: "need more data" */
     dscript_t *d = g_dsi < g_nds ? &g_ds[g_dsi] : &more; g_dsi++;
     *buf += d->moved; *len = (uint32) d->len; *requiredLen = (uint32) d->req; *error = d->err;
@@ -728,7 +734,7 @@ int main(void)
     { int nul = open("/dev/null", O_WRONLY); if (nul >= 0) { dup2(nul, 1); close(nul); } }
     if (matrixSslOpen() < 0) { emit("INITFAIL"); return 2; }
     g_default_pmtu = matrixDtlsGetPmtu();
-    if (getenv("C08_PAINT")) g_paint = (int) strtol(getenv("C08_PAINT"), NULL, 16) & 0xff;
+    if (getenv("C08_PAINT")) { g_obs = 1; if (strcmp(getenv("C08_PAINT"), "none")) g_paint = (int) strtol(getenv("C08_PAINT"), NULL, 16) & 0xff; }
     g_quiet = 1;
     while (next_case()) {
         if (g_ntok >= 2 && !strcmp(g_tok[0], "cap")) run_forked(body_cap, g_tok[1]);     /* a sanitizer abort costs this trace only */
